@@ -6,6 +6,7 @@ import H264.AnnexBOps
 import H264.RbspInit
 import H264.DecodeNal
 import H264.Properties.C09
+import H264.Overflow
 /-! # C03 — No input can panic, overflow, hang or over-allocate any parsing entry point
 
 What the model can carry, and what it cannot:
@@ -102,5 +103,44 @@ theorem byte_reader_invariant (chunks : List (List UInt8)) (complete : Bool) (sk
 non-empty) — the index arithmetic of `push` (`start`, `i - backtrack`, `fake` zeros) never leaves the buffer -/
 theorem annexb_calls_well_formed (ops : List AnnexB.Op) : ∀ c ∈ (AnnexB.runOps .start ops).2, c.WellShaped :=
   AnnexB.runOps_shaped .start ops
+
+/-! ### machine-arithmetic ledger: the fixed-width expression of each Rust site equals the unbounded model expression
+and no intermediate leaves its type, under exactly what the parser has checked at that point (`H264/Overflow.lean`) -/
+
+/-- `read_ue`: `(1 << count) - 1 + val` -/
+theorem ue_assembly_no_overflow (count val : Nat) (hc : count ≤ 31) (hv : val < 2^count) :
+    count < 32 ∧ 1 ≤ 2^count ∧ Overflow.FitsU32 ((2^count : Nat) : Int) ∧
+    Overflow.FitsU32 (((2^count - 1 + val : Nat) : Int)) ∧ 2^count - 1 + val ≤ 2^32 - 2 :=
+  Overflow.ue_assembly_fits count val hc hv
+/-- `fill_scaling_list`: `(last_scale as i32 + delta_scale + 256) % 256` then `as u8` -/
+theorem next_scale_no_overflow (last : Nat) (delta : Int) (hl : 1 ≤ last ∧ last ≤ 255)
+    (hd : ¬ (delta < -128 ∨ delta > 127)) :
+    Overflow.FitsI32 ((last : Int) + delta) ∧ Overflow.FitsI32 ((last : Int) + delta + 256) ∧
+    0 < (last : Int) + delta + 256 ∧ Overflow.FitsU8 (((last : Int) + delta + 256) % 256) ∧
+    ((((last : Int) + delta + 256).toNat % 256 : Nat) : Int) = ((last : Int) + delta + 256) % 256 :=
+  Overflow.next_scale_fits last delta hl hd
+/-- PPS QP bound: `6 * bit_depth_luma_minus8` (u8) and `-(26 + …)` (i32), for every accepted SPS -/
+theorem qp_bound_no_overflow (s s' : Src) (v : Sps.Sps) (h : Sps.parseSps s = .ok (v, s')) :
+    Overflow.FitsU8 (6 * (v.chromaInfo.bitDepthLumaMinus8 : Int)) ∧
+    Overflow.FitsI32 (26 + 6 * (v.chromaInfo.bitDepthLumaMinus8 : Int)) ∧
+    Overflow.FitsI32 (-(26 + 6 * (v.chromaInfo.bitDepthLumaMinus8 : Int))) := Overflow.qp_bd_offset_fits s s' v h
+/-- slice QS: the 64-bit sum of two 32-bit values and 26 -/
+theorem qs_sum_no_overflow (a b : Int) (ha : Overflow.FitsI32 a) (hb : Overflow.FitsI32 b) :
+    Overflow.FitsI64 (26 + a) ∧ Overflow.FitsI64 (26 + a + b) ∧ Overflow.wrapI64 (26 + a + b) = 26 + a + b :=
+  Overflow.qs_y_fits a b ha hb
+/-- `pic_size_in_map_units() - 1` never underflows, for any SPS value -/
+theorem pic_size_minus_one_no_underflow (s : Sps.Sps) : 1 ≤ Pps.picSizeInMapUnits s := Overflow.pic_size_pos s
+/-- `pic_width_in_mbs()`, `pic_height_in_map_units()`, `log2_max_frame_num()` on accepted SPS -/
+theorem helper_increments_no_overflow (s s' : Src) (v : Sps.Sps) (h : Sps.parseSps s = .ok (v, s')) :
+    Overflow.FitsU32 ((v.picWidthInMbsMinus1 : Int) + 1) ∧ Overflow.FitsU32 ((v.picHeightInMapUnitsMinus1 : Int) + 1) ∧
+    Overflow.FitsU8 ((v.log2MaxFrameNumMinus4 : Int) + 4) :=
+  ⟨(Overflow.dims_plus_one_fit s s' v h).1, (Overflow.dims_plus_one_fit s s' v h).2, Overflow.log2_frame_num_fits s s' v h⟩
+/-- pic_timing `time_offset`: `((raw << (32 - len)) as i32) >> (32 - len)` is the two's-complement value of the
+field, with both shift amounts below the width, for every `len` the reader can be asked for (1…31; 0 is skipped) -/
+theorem time_offset_no_overflow (len raw : Nat) (hl : 1 ≤ len ∧ len ≤ 31) (hr : raw < 2^len) :
+    32 - len < 32 ∧ len ≤ 32 ∧ Overflow.timeOffsetRust len raw = SeiPayload.signExtend len raw :=
+  Overflow.timeOffsetRust_eq len raw hl hr
+/-- not vacuous: −1 in a 5-bit field -/
+example : Overflow.timeOffsetRust 5 31 = -1 := by decide
 
 end C03
